@@ -491,6 +491,11 @@ def replay(rec):
     from mc.ctx import Ctx
     ctx = Ctx("C11", None, "quick", 0)
     c = rec.get("case") or rec
+    if c.get("kind") == "strict" or rec.get("kind") == "strict":
+        strict_target(ctx)
+        for v in ctx.violations.values():
+            print("  violation:", v["sig"], v["msg"])
+        return not ctx.violations
     hist = [tuple(e) for e in c["history"]]
     run_history(ctx, c["kind"], hist)
     print("kind", c["kind"], "history", hist)
